@@ -279,6 +279,10 @@ def run_case(case):
             mism.append({"what": "fit:fun/jac handed to minimize", "detail": "fun is cost: %s, jac is sensitivity: %s" % (s["fun_is_cost"], s["jac_is_sens"])})
         if s["constraints"]:
             mism.append({"what": "fit:constraints", "detail": str(s["constraints"])[:200]})
+    if case.get("malformed") and err is not None:
+        # lb=None and/or ub=None: the optimiser is not confined to a box (negative rates, blow-up): outside the property
+        tags.append("unbounded-side:raised:" + type(err).__name__)
+        return {"nontrivial": True, "mismatches": mism, "violations": viol, "tags": tags}
     if err is not None:
         # the optimiser (or the cost / sensitivity it calls) raised: fit returned nothing
         viol.append({"what": "fit raised %s: %s" % (type(err).__name__, str(err)[:160]),
@@ -324,7 +328,10 @@ def run_case(case):
         viol.append({"what": "fit returned a point with a larger cost than its start", "signature": "fit:worse-than-start:" + where,
                      "detail": "cost(start)=%r cost(result)=%r start=%s result=%s message=%s" % (c_start, c_out, case["x"], out, s["message"])})
     if case["start"] == "truth" and exact_data:
-        if not all(abs(a - b) <= 1e-5 * max(1.0, abs(b)) for a, b in zip(out, case["x"])):
+        # data from the loss object's own integrator: residual 0 up to 1e-10 -> 1e-5; data from scipy odeint differs from
+        # that integrator by ~1e-6 relative, the least-squares minimiser then moves by (condition number) x 1e-6 -> 1e-3
+        ttol = 1e-5 if case.get("ref") == "integrate2" else 1e-3
+        if not all(abs(a - b) <= ttol * max(1.0, abs(b)) for a, b in zip(out, case["x"])):
             viol.append({"what": "fit started at the generating parameters of noise-free data moved away", "signature": "fit:truth-not-fixed-point:" + sig_tail,
                          "detail": "truth=%s result=%s cost(truth)=%r cost(result)=%r g0=%s" % (case["x"], out, c_start, c_out, s["g0"])})
         tags.append("truth-start-exact-data")
